@@ -2019,7 +2019,7 @@ func (interp *Interpreter) cfg(root *node, sc *scope, importPath, pkgName string
 					case c0.kind == exprStmt && len(c0.child) == 1 && c0.child[0].action == aRecv:
 						an = c0.child[0].child[0]
 						pn = an
-					case c0.action == aAssign:
+					case c0.action == aAssign || c0.action == aAssignX:
 						an = c0.lastChild().child[0]
 						pn = an
 					case c0.kind == sendStmt:
